@@ -30,7 +30,7 @@ ASSUMPTIONS = ["identical means: returned states, index, keys and log-probabilit
 
 
 def gen_case(rng, i, tier):
-    case = mcase.gen_mcase(rng, ne=(rng.random() < 0.6), width="maybe", tighten_p=0.4, sparse_p=0.3, max_obs=8)
+    case = mcase.gen_mcase(rng, families=gen.FAMILIES_ALL, ne=(rng.random() < 0.6), width="maybe", tighten_p=0.4, sparse_p=0.3, max_obs=8)
     cfg = case["cfg"]
     if cfg["max_dist"] is None and cfg["min_prob_norm"] is None:
         cfg["max_dist"] = rng.choice([0.5, 1.0, 2.0])
